@@ -142,5 +142,87 @@ Proof.
     replace (blen p <? 8) with false by lia. rewrite N.min_id. cbn [obind]. rewrite N.ltb_irrefl.
     rewrite sub_all, sub_none. reflexivity.
   - unfold decode_udp. rewrite E1, E2. cbn [obind]. unfold udp_payload_range. change UdpDatagram_HEADER_SIZE_BYTES with 8.
-    rewrite get_unchecked_ok by lia. cbn [obind fst snd]. rewrite sl_sub. do 2 f_equal. lia.
+    rewrite get_unchecked_ok by lia. cbn [obind fst snd]. rewrite sl_sub.
+    replace (8 + (blen p - 8)) with (blen p) by lia. reflexivity.
+Qed.
+
+(** * standard path *)
+Lemma decode_seq_info (x : bytes) n : forall o infos,
+  bytes_ok x = true -> o + 8 * N.of_nat n <= blen x -> spec_infos x o n = Some infos ->
+  decode_seq decode_info x o 8 n = Ok infos.
+Proof.
+  induction n as [|n IH]; intros o infos Hok Hl H; cbn [spec_infos decode_seq] in *.
+  - inversion H. reflexivity.
+  - destruct (spec_info x o) as [i|] eqn:Ei; [|discriminate].
+    destruct (spec_infos x (o + 8) n) as [r|] eqn:Er; [|discriminate]. inversion H; subst infos. clear H.
+    rewrite get_unchecked_ok by lia. cbn [obind].
+    rewrite (decode_info_at x o i Hok ltac:(lia) Ei). cbn [obind].
+    rewrite (IH (o + 8) r Hok ltac:(lia) Er). reflexivity.
+Qed.
+
+Lemma decode_seq_hop (x : bytes) n : forall o,
+  bytes_ok x = true -> o + 12 * N.of_nat n <= blen x ->
+  decode_seq decode_hop x o 12 n = Ok (spec_hops x o n).
+Proof.
+  induction n as [|n IH]; intros o Hok Hl; cbn [spec_hops decode_seq] in *; [reflexivity|].
+  rewrite get_unchecked_ok by lia. cbn [obind].
+  rewrite (decode_hop_at x o Hok ltac:(lia)). cbn [obind].
+  rewrite (IH (o + 12) Hok ltac:(lia)). reflexivity.
+Qed.
+
+Lemma std_ranges ic hc :
+  let r := rshift (0, ic * (InfoField_SIZE_BYTES * 8)) StdPathMeta_SIZE_BYTES in
+  let ie := ic * (InfoField_SIZE_BYTES * 8) in
+  let r2 := rshift (rng_of_range ie (ie + hc * (HopField_SIZE_BYTES * 8))) StdPathMeta_SIZE_BYTES in
+  byte_lo r = 4 /\ byte_hi r = 4 + 8 * ic /\ byte_lo r2 = 4 + 8 * ic /\ byte_hi r2 = 4 + 8 * ic + 12 * hc.
+Proof.
+  unfold rshift, rng_of_range, byte_lo, byte_hi, r_end, r_start, r_width. cbn [fst snd].
+  change InfoField_SIZE_BYTES with 8. change HopField_SIZE_BYTES with 12. change StdPathMeta_SIZE_BYTES with 4.
+  repeat split; lia.
+Qed.
+
+Lemma std_agree (x : bytes) pth : bytes_ok x = true -> spec_std x = Some pth -> decode_stdpath x = Ok pth.
+Proof.
+  intros Hok. unfold spec_std. rewrite len_blen.
+  destruct (blen x <? 4) eqn:L4; [discriminate|]. apply N.ltb_ge in L4.
+  destruct (spec_meta_agrees x Hok ltac:(unfold StdPathMeta_SIZE_BYTES; lia)) as (Eci & Ech & _ & E0 & E1 & E2).
+  set (m := be x 0 4) in *.
+  set (s0 := (m / 2 ^ 12) mod 64) in *. set (s1 := (m / 2 ^ 6) mod 64) in *. set (s2 := m mod 64) in *.
+  set (ni := (if 0 <? s0 then 1 else 0) + (if 0 <? s1 then 1 else 0) + (if 0 <? s2 then 1 else 0)).
+  destruct (((m / 2 ^ 18) mod 64 =? 0) && ((0 <? s0) && ((0 <? s1) || (s2 =? 0))) && (blen x =? 4 + 8 * ni + 12 * (s0 + s1 + s2))) eqn:C;
+    cbn [negb]; [|discriminate].
+  apply Bool.andb_true_iff in C. destruct C as [C CL]. apply Bool.andb_true_iff in C. destruct C as [_ CP].
+  apply N.eqb_eq in CL.
+  destruct (spec_infos x 4 (N.to_nat ni)) as [infos|] eqn:EI; [|discriminate].
+  intros H. inversion H; subst pth. clear H.
+  unfold decode_stdpath. rewrite Eci, Ech. cbn [obind]. unfold sp_segs. rewrite E0, E1, E2. cbn [obind].
+  unfold sp_info_fields_range, sp_hop_fields_range, sp_segs. rewrite E0, E1, E2. cbn [obind].
+  unfold info_fields_byte_range, hop_fields_byte_range.
+  assert (Eic : info_field_count s0 s1 s2 = ni) by reflexivity.
+  assert (Ehc : hop_field_count s0 s1 s2 = s0 + s1 + s2) by reflexivity.
+  rewrite Eic, Ehc.
+  destruct (std_ranges ni (s0 + s1 + s2)) as (R1 & R2 & R3 & R4). cbv zeta in R1, R2, R3, R4.
+  rewrite R1, R2, R3, R4. cbn [fst snd].
+  rewrite !get_unchecked_ok by lia. cbn [obind fst snd].
+  change InfoField_SIZE_BYTES with 8. change HopField_SIZE_BYTES with 12.
+  rewrite (decode_seq_info x (N.to_nat ni) 4 infos Hok ltac:(lia) EI). cbn [obind].
+  rewrite (decode_seq_hop x (N.to_nat (s0 + s1 + s2)) (4 + 8 * ni) Hok ltac:(lia)). cbn [obind].
+  set (hops := spec_hops x (4 + 8 * ni) (N.to_nat (s0 + s1 + s2))).
+  f_equal. f_equal.
+  (* the segment list *)
+  apply Bool.andb_true_iff in CP. destruct CP as [P0 P1].
+  unfold ni in EI. rewrite P0 in *.
+  destruct (0 <? s1) eqn:Q1.
+  - destruct (0 <? s2) eqn:Q2.
+    + change (N.to_nat (1 + 1 + 1)) with 3%nat in EI. cbn [spec_infos] in EI.
+      destruct (spec_info x 4) as [i0|]; [|discriminate]. destruct (spec_info x (4 + 8)) as [i1|]; [|discriminate].
+      destruct (spec_info x (4 + 8 + 8)) as [i2|]; [|discriminate]. inversion EI; subst infos.
+      cbn [build_segments nth_error app]. rewrite skipn_skipn'. rewrite <- N2Nat.inj_add. reflexivity.
+    + change (N.to_nat (1 + 1 + 0)) with 2%nat in EI. cbn [spec_infos] in EI.
+      destruct (spec_info x 4) as [i0|]; [|discriminate]. destruct (spec_info x (4 + 8)) as [i1|]; [|discriminate].
+      inversion EI; subst infos. cbn [build_segments nth_error app]. reflexivity.
+  - cbn [orb] in P1. apply N.eqb_eq in P1. replace (0 <? s2) with false in * by lia.
+    change (N.to_nat (1 + 0 + 0)) with 1%nat in EI. cbn [spec_infos] in EI.
+    destruct (spec_info x 4) as [i0|]; [|discriminate]. inversion EI; subst infos.
+    cbn [build_segments nth_error app]. reflexivity.
 Qed.
